@@ -31,6 +31,13 @@ def run_one(commit, props, keys):
             sh(["git", "-C", wt, "checkout", "-q", "--detach", commit + "~1"])
             sh(["git", "-C", wt, "checkout", "-q", "--", "."])
             res["tree"] = "parent of the repair"
+        # a reverted tree that no longer imports (a later repair builds on this one) says nothing: use the parent of the repair instead
+        if res["tree"].startswith("HEAD"):
+            imp = sh(["/venv/bin/python", "-W", "ignore", "-c", "import bionumpy"], env=dict(os.environ, PYTHONPATH=wt))
+            if imp.returncode:
+                sh(["git", "-C", wt, "checkout", "-q", "--", "."])
+                sh(["git", "-C", wt, "checkout", "-q", "--detach", commit + "~1"])
+                res["tree"] = "parent of the repair"
         res["checks"] = {}
         for p in sorted(props):
             k = sh([os.path.join(ROOT, "check"), p, "--tier", "quick", "--no-evidence"], env=dict(os.environ, BNPMON_REPO=wt, PYTHONDONTWRITEBYTECODE="1"), cwd=ROOT, timeout=7200)
